@@ -369,6 +369,8 @@ def run(ctx: Ctx) -> int:
             ctx.count_distinct((pname, five, tuple((s["a"], s["v"]) for s in h)))
     ctx.extra["tlc_generated_histories"] = ngen
     judge(ctx, runs)
+    from .. import devops
+    devops.growth(ctx)                   # spec growth beyond C16: every public operation as a sequence of exchanges (spec/DevOps.tla); conformance drift only
     r0 = runs[0]
     ctx.sample({"profile": r0["profile"], "history": [(s["a"], s["v"]) for s in r0["hist"]],
                 "b0_frames": [bytes(f).hex() for e in r0["events"] for f in e["b0"]][:3], "attrs_after": r0["events"][-1]["attrs"]})
